@@ -25,6 +25,12 @@ def cases(tier, seed):
                 for mk in ("none", "bool_sym"):
                     for T in ((1, 2) if mk == "none" else (1,)):
                         out.append({"rel": rel, "fam": "reduce", "func": f, "dtype": dt, "N": N, "G": G, "mask": {"kind": mk}, "threads": T})
+        # integer-position masks (a separate loop of the kernel and a separate branch of the wrapper): a selected position may hold a null key
+        for f in red_funcs:
+            if f == "size":
+                continue
+            for dt in dts[:2]:
+                out.append({"rel": rel, "fam": "reduce", "func": f, "dtype": dt, "N": N, "G": G, "mask": {"kind": "fancy", "L": 2 if tier == "quick" else 3}, "threads": 1})
         for op in REL.CU.OPS:
             for dt in (dts if op != "cumcount" else ("int64",)):
                 if op == "cumsum" and dt.startswith("datetime"):
